@@ -78,6 +78,9 @@ def gen_framing(tier, seed):
         maxp = session(tk)[:4] + [{"k": "data", "cls": "valid", "n": 65535}, {"k": "data", "cls": "valid", "n": 65534}, {"k": "data", "cls": "valid", "n": 65535}, {"k": "close", "cls": "valid"}]
         add("maxpackets", tk, tr, md, maxp, list(range(1, len(maxp))))
         add("coalesce:max", tk, tr, md, maxp, [1, 2, 3, 4, 7])
+        # ... and the largest packets arriving in several reads (cut inside the header, right behind it, in the middle)
+        for cut in ([[5, 4]], [[5, 8]], [[5, 30000]], [[6, 10], [7, -1]], [[5, 4096], [5, 8192], [7, 65000]]):
+            add("maxpackets-cut", tk, tr, md, maxp, list(range(1, len(maxp))), cut)
         # random multi-cut splits with chunk boundaries independent of packets
         for r in range(12 if tier == "quick" else 150):
             b = [x for x in allb if rng.random() < 0.5]
